@@ -40,6 +40,52 @@ def solver_cases(cases):
     return out
 
 
+def configure(sim, integ, c):
+    sim.integrator = integ
+    if integ == "whfast":
+        sim.ri_whfast.coordinates = c.get("coordinates") or "jacobi"
+        sim.ri_whfast.safe_mode = c.get("safe_mode", 1)
+        sim.ri_whfast.kernel = c.get("kernel", "default")
+        sim.ri_whfast.corrector = c.get("corrector", 0)
+    if integ == "saba":
+        sim.ri_saba.type = c.get("saba_type", "10,6,4")
+        sim.ri_saba.safe_mode = c.get("safe_mode", 1)
+    if integ == "mercurius":
+        sim.ri_mercurius.r_crit_hill = 1e-3
+    if integ == "trace":
+        sim.ri_trace.r_crit_hill = 1e-3
+        sim.ri_trace.peri_crit_eta = 1e100      # never switch to the pericentre (BS) mode: "away from encounters"
+    if integ == "whfast512":
+        sim.exact_finish_time = 0
+
+
+def apply_history(sim, h):
+    op = h["op"]
+    if op == "steps":
+        configure(sim, h["integrator"], h)
+        for _ in range(h.get("n", 1)):
+            sim.dt = fh(h["dt"])          # IAS15 changes sim.dt
+            sim.step()
+    elif op == "reset_integrator":
+        sim.reset_integrator()
+    elif op == "synchronize":
+        sim.synchronize()
+    elif op == "third_body":
+        # a far, light third body joins for a few steps and leaves again (particle arrays are re-allocated twice)
+        sim.synchronize()
+        p = sim.particles[1]; q = sim.particles[0]
+        f = h["factor"]
+        sim.add(m=h["m"], x=q.x + f * (p.x - q.x) + f * (p.y - q.y), y=q.y + f * (p.y - q.y) - f * (p.x - q.x), z=q.z + f * (p.z - q.z),
+                vx=q.vx, vy=q.vy, vz=q.vz)
+        for _ in range(h.get("n", 1)):
+            sim.dt = fh(h["dt"])
+            sim.step()
+        sim.synchronize()
+        sim.remove(index=2)
+    else:
+        raise ValueError("unknown history op " + op)
+
+
 def sim_cases(cases):
     out = []
     for c in cases:
@@ -52,25 +98,24 @@ def sim_cases(cases):
             for ex in c.get("extra", []):          # further (near-massless) planets, used for WHFast512's 8 lanes
                 p = [fh(v) for v in ex["p"]]
                 sim.add(m=fh(ex["m"]), x=p[0], y=p[1], z=p[2], vx=p[3], vy=p[4], vz=p[5])
+            # HISTORY: what happened to this simulation object before the measured step (integrator / coordinate /
+            # kernel / safe_mode switches, reset_integrator, a third body added and removed again ...). The measured
+            # step must be the exact Kepler flow of whatever two-body state the history leaves behind.
+            for h in c.get("history", []):
+                apply_history(sim, h)
             integ = c["integrator"]
-            sim.integrator = integ
-            if integ == "whfast":
-                sim.ri_whfast.coordinates = c["coordinates"]
-                sim.ri_whfast.safe_mode = 1
-            if integ == "saba":
-                sim.ri_saba.type = c.get("saba_type", "10,6,4")
-            if integ == "mercurius":
-                sim.ri_mercurius.r_crit_hill = 1e-3
-            if integ == "trace":
-                sim.ri_trace.r_crit_hill = 1e-3
-                sim.ri_trace.peri_crit_eta = 1e100      # never switch to the pericentre (BS) mode: "away from encounters"
-            if integ == "whfast512":
-                sim.exact_finish_time = 0
+            configure(sim, integ, c)
+            sim.synchronize()
             sim.dt = fh(c["dt"])
+            t0 = sim.t
+            ps = sim.particles
+            before = [[getattr(ps[i], n).hex() for n in C6] for i in range(sim.N)]
             sim.step()
             sim.synchronize()
             ps = sim.particles
-            res = {"state": [[getattr(ps[i], n).hex() for n in C6] for i in range(sim.N)], "t": sim.t.hex(), "dt": sim.dt.hex()}
+            res = {"before": before, "state": [[getattr(ps[i], n).hex() for n in C6] for i in range(sim.N)],
+                   # time advanced by the measured step: exactly the requested dt iff t1 == t0 + dt in binary64
+                   "t": (fh(c["dt"]) if sim.t == t0 + fh(c["dt"]) else sim.t - t0).hex(), "dt": sim.dt.hex()}
         except Exception as e:   # rebound raises on reb_simulation_error
             res = {"error": repr(e)[:300]}
         out.append(res)
